@@ -3,7 +3,7 @@
 Require Extraction.
 Require Import ExtrOcamlBasic.
 From Coq Require Import ZArith List.
-From LasV Require Import Lib.Base Lib.Layout Gen.GenGlobalEncoding Gen.GenFormatBits Model.GlobalEnc Model.Las Model.Cursor Model.SubField.
+From LasV Require Import Lib.Base Lib.Layout Gen.GenGlobalEncoding Gen.GenFormatBits Model.GlobalEnc Model.Las Model.Cursor Model.SubField Model.HeaderOps.
 Extraction Language OCaml.
 Extraction "../ocaml/model.ml"
   Z.add Z.mul Z.sub Z.div_eucl Z.compare Z.of_nat Z.to_nat
@@ -14,4 +14,5 @@ Extraction "../ocaml/model.ml"
   null_pad cut_nul enc_vlrs dec_vlrs enc_header dec_header file_of wopen wstep wrun aopen apoints aclose arun
   read_file read_records compat std_size
   crun srun stats_of
+  hstep hrun yday of_yday valid_date
   sf_assign sf_get sf_assign_arr sf_cmp_fast sf_cmp_spec sf_max all_sub_fields.
